@@ -14,7 +14,7 @@
 #   strings  every string body <= 3 (thorough 4) over the C01-X4 alphabet as '..', '''..''', f'..', f'''..''';
 #   longargs argument lists (call, method, array, dict, nested, files(), parenthesised and/or chains) whose one-line
 #            length is max_line_length-1, =, +1 for max_line_length in {20, 40, 80}, with/without trailing comma;
-#   configs  all 2^9 boolean options x max_line_length {20,80} x indent_by {2 spaces, tab} x end_of_line {lf, crlf}
+#   configs  all 2^9 boolean options x max_line_length {20,80} x indent_by {2 spaces, tab, empty} x end_of_line {lf, crlf}
 #            on the quick program set (thorough: + pairwise covering array on the big program set);
 #   corpus   every meson.build below REPO that the real parser accepts, under 4 configurations;
 #   cli      mformat.run(): --check-only / --check-diff exit status  <=>  the bytes --inplace would write differ
@@ -1119,8 +1119,8 @@ def all_configs():
     out = []
     for bits in itertools.product([False, True], repeat=len(BOOL_OPTS)):
         for mll in (20, 80):
-            for ind in ('  ', '\t'):
-                for eol in ('lf', 'crlf'):
+            for ind in ('  ', '\t', ''):
+                for eol in (('lf', 'crlf') if ind else ('lf',)):
                     cfg = dict(zip(BOOL_OPTS, bits))
                     cfg.update(max_line_length=mll, indent_by=ind, end_of_line=eol)
                     out.append(cfg)
@@ -1131,7 +1131,7 @@ def pairwise_configs():
     """Covering array of strength 2 over the 9 booleans x mll {20,40,80} x indent {2sp,4sp,tab}, built greedily
     (deterministic); every pair of (option, value) choices appears in at least one configuration."""
     params = [(o, [False, True]) for o in BOOL_OPTS if o != 'use_editor_config'] + \
-             [('max_line_length', [20, 40, 80]), ('indent_by', ['  ', '    ', '\t'])]
+             [('max_line_length', [20, 40, 80]), ('indent_by', ['  ', '    ', '\t', ''])]
     need = set()
     for (i, (a, va)), (j, (b, vb)) in itertools.combinations(enumerate(params), 2):
         for x in va:
@@ -1410,6 +1410,10 @@ def main():
     else:
         fam_trivia('trivia:skel:dev1:cfgB', 'skel', (1,), True, CORPUS_CFGS[1])
         fam_trivia('trivia:skel:dev1:cfgC', 'skel', (1,), True, CORPUS_CFGS[3])
+    # degenerate settings (empty indentation, empty comment indentation)
+    fam_trivia('trivia:skel:dev1:cfgE', 'skel', (1,), True, {'indent_by': '', 'indent_before_comments': ''})
+    if T:
+        fam_trivia('trivia:s1:dev1:cfgE', 's1', (1,), True, {'indent_by': '', 'indent_before_comments': ''})
 
     # ---- ill-formed but accepted -----------------------------------------------------------------------------
     if ck.want('illformed'):
